@@ -32,7 +32,7 @@ RULE = ('a case = 2-3 generated sys.path roots (two of them with names that are 
 ASSUMPTIONS = ['the helper interpreter equals the oracle interpreter (3.12)',
                'generated modules have no import-time behaviour besides constants',
                'files shadowed by an earlier root are not importable under any name: not claimed for the dotted-name clause']
-SIZES = {'quick': 120, 'thorough': 2400}
+SIZES = {'quick': 120, 'thorough': 800}
 TIMEOUT = {'quick': 1500, 'thorough': 5 * 3600}
 
 ORACLE = r'''
